@@ -99,8 +99,9 @@ def param_or_number(draw, value, name, allow_beta=True):
 
 
 @st.composite
-def nested_structure(draw, alts, force_all_one=False):
-    """Partition of a subset of the alternatives into nests; the rest is left alone."""
+def nested_structure(draw, alts, force_all_one=False, below_one=False):
+    """Partition of a subset of the alternatives into nests; the rest is left alone.
+    below_one: some nest parameters are plain numbers in [0.5, 1) (the formulas are defined for any positive value)."""
     alts = list(alts)
     perm = draw(st.permutations(alts))
     n_alone = draw(st.integers(0, max(0, len(alts) - 2))) if draw(st.booleans()) else 0
@@ -117,16 +118,19 @@ def nested_structure(draw, alts, force_all_one=False):
     nests = []
     for i, g in enumerate(groups):
         mu_m = 1.0 if force_all_one else draw(mu_values())
+        if below_one and not force_all_one and draw(st.booleans()):
+            nests.append([draw(param_or_number(draw(gen.dyadic(0.5, 0.9375, 16)), f'MU_{i}', allow_beta=False)), g])
+            continue
         nests.append([draw(param_or_number(mu_m, f'MU_{i}')), g])
     return nests
 
 
 @st.composite
-def cross_nested_structure(draw, alts, degenerate=False):
+def cross_nested_structure(draw, alts, degenerate=False, below_one=False):
     """Nests with allocation parameters. degenerate: disjoint nests, every alpha equal to one."""
     alts = list(alts)
     if degenerate:
-        nests = draw(nested_structure(alts))
+        nests = draw(nested_structure(alts, below_one=below_one))
         return [[mu, [[a, ['Lit', 1.0] if draw(st.booleans()) else ['Num', 1.0]] for a in g]] for mu, g in nests]
     n_alone = draw(st.integers(0, max(0, len(alts) - 2))) if draw(st.floats(0, 1)) < 0.3 else 0
     perm = list(draw(st.permutations(alts)))
